@@ -1010,4 +1010,96 @@ theorem vecLt_ok {a b : Vec} {xs ys : List Val} (ha : Rep a xs) (hb : Rep b ys) 
   have := lexLoop_ok ha hb 0 (min xs.length ys.length) (by omega)
   simpa [vecLt, ha.size_eq, hb.size_eq] using this
 
+
+/-! ### registers, ledger totals and the state invariant -/
+
+/-- sum of `g 0 .. g (R-1)` -/
+def total (g : Nat → Int) : Nat → Int
+  | 0 => 0
+  | n + 1 => total g n + g n
+
+theorem total_set (g : Nat → Int) (r : Nat) (x : Int) (R : Nat) (hr : r < R) :
+    total (fun j => if j = r then x else g j) R = total g R + x - g r := by
+  induction R with
+  | zero => omega
+  | succ n ih =>
+    simp only [total]
+    by_cases h : r = n
+    · subst h
+      have : total (fun j => if j = r then x else g j) r = total g r := by
+        clear ih hr
+        have aux : ∀ m, m ≤ r → total (fun j => if j = r then x else g j) m = total g m := by
+          intro m hm
+          induction m with
+          | zero => rfl
+          | succ k ihk => simp only [total]; rw [ihk (by omega), if_neg (by omega)]
+        exact aux r (Nat.le_refl _)
+      rw [this]; simp; omega
+    · rw [ih (by omega), if_neg (by omega)]; omega
+
+/-- the state invariant: every register represents its list, the ledger balances -/
+structure SInv (R : Nat) (s : St) (f : Nat → List Val) : Prop where
+  rep : ∀ r, Rep (s.regs r) (f r)
+  net : s.led.net = total (fun r => ((f r).length : Int)) R
+  blk : s.led.blocks = total (fun r => held (s.regs r)) R
+
+theorem total_zero (n : Nat) : total (fun _ => (0 : Int)) n = 0 := by
+  induction n with
+  | zero => rfl
+  | succ k ih => simp [total, ih]
+
+theorem SInv.init (R : Nat) : SInv R St.init (fun _ => []) := by
+  refine ⟨fun _ => Rep.nil, ?_, ?_⟩
+  · simp [St.init, Ledger.net, total_zero]
+  · simp [St.init, Ledger.blocks, total_zero]
+
+theorem SInv.set {R : Nat} {s : St} {f : Nat → List Val} (h : SInv R s f) {r : Nat} (hr : r < R)
+    {v' : Vec} {xs' : List Val} {l' : Ledger} (g : Good (s.regs r) (f r) s.led v' xs' l') :
+    SInv R (s.set r v' l') (setL f r xs') := by
+  refine ⟨?_, ?_, ?_⟩
+  · intro j; simp only [St.set, setL]; split
+    · exact g.rep
+    · exact h.rep j
+  · have := total_set (fun r => ((f r).length : Int)) r xs'.length R hr
+    have e : (fun j => ((setL f r xs' j).length : Int)) = fun j => if j = r then (xs'.length : Int) else ((f j).length : Int) := by
+      funext j; simp only [setL]; split <;> rfl
+    show l'.net = total (fun j => ((setL f r xs' j).length : Int)) R
+    rw [e, this, g.net, h.net]
+  · have := total_set (fun r => held (s.regs r)) r (held v') R hr
+    have e : (fun j => held ((s.set r v' l').regs j)) = fun j => if j = r then held v' else held (s.regs j) := by
+      funext j; simp only [St.set]; split <;> rfl
+    show l'.blocks = total (fun j => held ((s.set r v' l').regs j)) R
+    rw [e, this, g.blk, h.blk]
+
+
+theorem total_zero_of (g : Nat → Int) (R : Nat) (h : ∀ j, j < R → g j = 0) : total g R = 0 := by
+  induction R with
+  | zero => rfl
+  | succ n ih => simp only [total]; rw [ih (fun j hj => h j (by omega)), h n (by omega)]; rfl
+
+theorem destroyAll_ok {R : Nat} {s : St} {f : Nat → List Val} (hI : SInv R s f) (n : Nat) (hn : n ≤ R) :
+    ∃ s', destroyAll s n = some s' ∧ SInv R s' (fun j => if j < n then [] else f j) ∧
+      (∀ j, j < n → s'.regs j = Vec.empty) := by
+  induction n with
+  | zero => exact ⟨s, rfl, by simpa using hI, by intro j hj; omega⟩
+  | succ n ih =>
+    obtain ⟨s1, h1, hI1, hE⟩ := ih (by omega)
+    obtain ⟨l', h2, g⟩ := invalidate_good (hI1.rep n) s1.led
+    refine ⟨s1.set n Vec.empty l', by simp [destroyAll, h1, h2], ?_, ?_⟩
+    · have := hI1.set (show n < R by omega) g
+      have e : setL (fun j => if j < n then [] else f j) n [] = fun j => if j < n + 1 then [] else f j := by
+        funext j; simp only [setL]
+        by_cases hj : j = n
+        · simp [hj]
+        · by_cases hj2 : j < n
+          · simp [hj, hj2]; omega
+          · simp [hj, hj2]; omega
+      rwa [e] at this
+    · intro j hj
+      simp only [St.set]
+      by_cases hjn : j = n
+      · simp [hjn]
+      · simp [hjn]; exact hE j (by omega)
+
+
 end Igris.C02
